@@ -121,6 +121,8 @@ def _mk_bin(sym, fn):
     def gen_uu(rng, D, P, tier):
         s1 = _shape(rng, tier)
         s2 = s1 if rng.random() < 0.5 else tuple(rng.choice([1, n]) for n in s1)[rng.randint(0, len(s1)):]
+        if rng.random() < 0.4:
+            s1, s2 = s2, s1            # the left operand is the one of lower rank / with the length-1 axes
         x = rand_coeffs(rng, (D, P) + s1, -2, 2)
         y = rand_coeffs(rng, (D, P) + s2, -2, 2)
         if sym == 'div':
@@ -145,6 +147,8 @@ def _mk_bin(sym, fn):
     def gen_ua(rng, D, P, tier):
         s1 = _shape(rng, tier)
         s2 = tuple(rng.choice([1, n]) for n in s1)[rng.randint(0, len(s1)):]
+        if rng.random() < 0.4:
+            s1, s2 = s2, s1            # the plain array has more axes than the polynomial
         x = rand_coeffs(rng, (D, P) + s1, -2, 2)
         c = c01.gen_x0(rng, 'nz', s2, False)
         return [U(x), A(c)]
@@ -153,6 +157,8 @@ def _mk_bin(sym, fn):
     def gen_au(rng, D, P, tier):
         s1 = _shape(rng, tier)
         s2 = tuple(rng.choice([1, n]) for n in s1)[rng.randint(0, len(s1)):]
+        if rng.random() < 0.4:
+            s1, s2 = s2, s1
         x = rand_coeffs(rng, (D, P) + s1, -2, 2)
         if sym == 'div':
             x[0] = c01.gen_x0(rng, 'nz', x[0].shape, False)
